@@ -62,6 +62,7 @@ func (r *BatchedPrivateTokenRequest) Marshal() []byte {
 }
 
 func (r *BatchedPrivateTokenRequest) Unmarshal(data []byte) bool {
+	r.raw = nil // the cached encoding belongs to the previous value
 	s := cryptobyte.String(data)
 
 	var tokenType uint16
